@@ -2,7 +2,7 @@
    `exact`, so it is checked to be convertible with it); proofs in RcP.v (strong side) and RcWeakP.v (weak side) *)
 From Coq Require Import ZArith List Bool Lia Arith.
 Import ListNotations.
-Require Import Params StateW DisposeW ModularW RcSnapCheck RcSnapP RcSnapInvP RcWSnapInvP Rc RcSpec RcP RcWeakP.
+Require Import Params StateW DisposeW ModularW RcSnapCheck RcSnapP RcSnapInvP RcWSnapInvP Rc RcSpec RcP RcWeakP RcRunOkEx.
 Local Open Scope Z_scope.
 
 Theorem C01_strong_owner_keeps_alive :
@@ -72,3 +72,9 @@ Theorem C01_final :
 Proof. exact RcWSnapInvP.C01_final. Qed.
 Print Assumptions C01_final.
 
+(* ---- the hypothesis run_ok of the final theorems is satisfiable (RcRunOkEx.v: boolean forms of every run hypothesis with
+   soundness lemmas, evaluated by vm_compute on a two-thread run) *)
+Theorem C01_final_hypotheses_satisfiable :
+  run_ok ex_s0 (ex_sched 20 9).
+Proof. exact RcRunOkEx.ex_run_ok. Qed.
+Print Assumptions C01_final_hypotheses_satisfiable.
